@@ -53,6 +53,7 @@ use crate::values::UnpackValue;
 use crate::values::Value;
 use crate::values::ValueError;
 use crate::values::index::apply_slice;
+use crate::values::index::unpack_slice_bound;
 use crate::values::none::NoneOr;
 use crate::values::string::interpolation;
 use crate::values::string::repr::string_repr;
@@ -323,7 +324,7 @@ impl<'v> StarlarkValue<'v> for StarlarkStr {
         fn start_stop_to_none_or(v: Option<Value>) -> crate::Result<NoneOr<i32>> {
             match v {
                 None => Ok(NoneOr::None),
-                Some(v) => Ok(NoneOr::Other(i32::unpack_value_err(v)?)),
+                Some(v) => Ok(NoneOr::Other(unpack_slice_bound(v)?)),
             }
         }
 
@@ -388,6 +389,7 @@ mod tests {
     use crate::values::Heap;
     use crate::values::Value;
     use crate::values::index::apply_slice;
+use crate::values::index::unpack_slice_bound;
 
     #[test]
     fn test_string_corruption() {
